@@ -240,7 +240,7 @@ func runHarness(l *loaded, spec HarnessSpec, tier string, workers int, seed int6
 		budget = 240
 	}
 	if tier == "thorough" {
-		budget *= 8
+		budget *= 2
 	}
 	if b := os.Getenv("VERIF_BUDGET_S"); b != "" {
 		budget, _ = strconv.Atoi(b)
